@@ -82,7 +82,8 @@ enum opcode {
     OP_RELEASE, OP_PREL, OP_TIMER_ADD, OP_TIMER_SET, OP_TIMER_CANCEL, OP_TIMERS_CLEAR,
     OP_KCANCEL, OP_KREPRIO, OP_KPOS, OP_OPOS, OP_CSIGNAL, OP_CCANCEL, OP_CREMOVE, OP_CTRSET,
     OP_INTERRUPT, OP_RESUME, OP_STOP, OP_SETPRIO, OP_START, OP_USCHED, OP_UCANCEL,
-    OP_URESCHED, OP_REC_ON, OP_REC_OFF, OP_FILL_TO, OP_EXIT, OP_RETURN, OP_NOP, OP__COUNT
+    OP_URESCHED, OP_REC_ON, OP_REC_OFF, OP_FILL_TO, OP_FTIMER_ADD, OP_FTIMER_CANCEL, OP_FTIMERS_CLEAR,
+    OP_CUNSUB, OP_CSUB, OP_EXIT, OP_RETURN, OP_NOP, OP__COUNT
 };
 
 static const char *const opnames[OP__COUNT] = {
@@ -91,7 +92,8 @@ static const char *const opnames[OP__COUNT] = {
     "release", "prel", "timer_add", "timer_set", "timer_cancel", "timers_clear",
     "kcancel", "kreprio", "kpos", "opos", "csignal", "ccancel", "cremove", "ctrset",
     "interrupt", "resume", "stop", "setprio", "start", "usched", "ucancel",
-    "uresched", "rec_on", "rec_off", "fill_to", "exit", "return", "nop"
+    "uresched", "rec_on", "rec_off", "fill_to", "ftimer_add", "ftimer_cancel", "ftimers_clear",
+    "cunsub", "csub", "exit", "return", "nop"
 };
 
 struct sop {
@@ -149,7 +151,7 @@ static int nuevs, capuevs;
 static int64_t counters[MAXCTR];
 static double start_time;
 /* observation links: cond index observes guard (object index, side) */
-struct obslink { int cond; int obj; int side; bool via_subscribe; };
+struct obslink { int cond; int obj; int side; bool via_subscribe; bool active; };
 static struct obslink links[64];
 static int nlinks;
 /* taps: one per observed guard */
@@ -234,9 +236,9 @@ static void log_ground(const int cond, const char *why, const char *objname)
 static void log_ground_for_object(const int obj, const char *why)
 {
     for (int l = 0; l < nlinks; l++) {
-        if (links[l].obj == obj) {
+        if (links[l].obj == obj && links[l].active) {
             bool seen = false;
-            for (int m = 0; m < l; m++) if (links[m].obj == obj && links[m].cond == links[l].cond) seen = true;
+            for (int m = 0; m < l; m++) if (links[m].obj == obj && links[m].cond == links[l].cond && links[m].active) seen = true;
             if (!seen) log_ground(links[l].cond, why, objs[obj].name);
         }
     }
@@ -259,7 +261,7 @@ static bool tap_demand(const struct cmb_condition *cnd, const struct cmb_process
     if (in_teardown) return false;
     tr("T %" PRIu64 " %" PRIu64 " %a %s.%d\n", ++seqno, evno, cmb_time(), objs[tp->obj].name, tp->side);
     for (int l = 0; l < nlinks; l++) {
-        if (links[l].obj == tp->obj && links[l].side == tp->side) log_ground(links[l].cond, "tap", objs[tp->obj].name);
+        if (links[l].obj == tp->obj && links[l].side == tp->side && links[l].active) log_ground(links[l].cond, "tap", objs[tp->obj].name);
     }
     return false;
 }
@@ -560,6 +562,54 @@ static bool do_nonblocking(const struct sop *o, const int pid, const int opi, co
         CALLHDR(); tr("\n");
         cmb_process_timers_clear(me->p);
         return true;
+    /* timers of ANOTHER process ("pp: usually the calling process itself"). Not offered: clearing all
+     * timers of a process inside cmb_process_hold, whose own wake-up is one of them (DESIGN par. 2.1) */
+    case OP_FTIMER_ADD: {
+        if (tg == NULL) SKIP("no-target");
+        if (o->i1 == 0) SKIP("signal-0");
+        if (cmb_process_status(tg->p) != CMB_PROCESS_RUNNING) SKIP("target-not-running");
+        const uint64_t h = cmb_process_timer_add(tg->p, o->d1, o->i1);
+        if (tg->ntimers == tg->captimers) {
+            tg->captimers = tg->captimers ? tg->captimers * 2 : 16;
+            tg->timers = realloc(tg->timers, (size_t)tg->captimers * sizeof *tg->timers);
+        }
+        tg->timers[tg->ntimers++] = h;
+        CALLHDR(); tr(" %d %a %" PRIi64 " -> %" PRIu64 "\n", o->tgt, o->d1, o->i1, h);
+        return true;
+    }
+    case OP_FTIMER_CANCEL: {
+        if (tg == NULL) SKIP("no-target");
+        if (cmb_process_status(tg->p) != CMB_PROCESS_RUNNING) SKIP("target-not-running");
+        if (tg->ntimers == 0) SKIP("no-timer");
+        const uint64_t h = tg->timers[(uint64_t)o->i1 % (uint64_t)tg->ntimers];
+        const bool r = cmb_process_timer_cancel(tg->p, h);
+        CALLHDR(); tr(" %d %" PRIu64 " -> %d\n", o->tgt, h, r ? 1 : 0);
+        return true;
+    }
+    case OP_FTIMERS_CLEAR:
+        if (tg == NULL) SKIP("no-target");
+        if (cmb_process_status(tg->p) != CMB_PROCESS_RUNNING) SKIP("target-not-running");
+        if (tg->blocked_op >= 0 && tg->blocked_code == OP_HOLD) SKIP("target-holding");
+        CALLHDR(); tr(" %d\n", o->tgt);
+        cmb_process_timers_clear(tg->p);
+        return true;
+    case OP_CUNSUB: case OP_CSUB: {
+        struct obslink *lk = &links[o->i1];
+        struct cmb_condition *cv = objs[lk->cond].ptr;
+        struct cmb_resourceguard *g = guard_of(lk->obj, lk->side);
+        if (o->code == OP_CSUB) {
+            if (lk->active) SKIP("already-subscribed");
+            CALLHDR(); tr(" %s %s.%d\n", objs[lk->cond].name, objs[lk->obj].name, lk->side);
+            cmb_condition_subscribe(cv, g);
+            lk->active = true;
+        }
+        else {
+            const bool r = cmb_condition_unsubscribe(cv, g);
+            CALLHDR(); tr(" %s %s.%d -> %d\n", objs[lk->cond].name, objs[lk->obj].name, lk->side, r ? 1 : 0);
+            lk->active = false;
+        }
+        return true;
+    }
     case OP_KCANCEL: case OP_KREPRIO: case OP_KPOS: {
         struct sobj *ob = &objs[o->obj];
         struct cmb_priorityqueue *q = ob->ptr;
@@ -927,6 +977,8 @@ static int parse_proc(const char *s)
 
 static int need_kind(const int obj, const enum okind kind) { return (obj >= 0 && objs[obj].kind == kind) ? 0 : -1; }
 
+static int parse_side(char *s, int *obj, int *side);
+
 /* parse "name args.." into *o; returns 0 or -1 */
 static int parse_op(char **tok, int nt, struct sop *o)
 {
@@ -1004,6 +1056,22 @@ static int parse_op(char **tok, int nt, struct sop *o)
     case OP_URESCHED: NEED(2); o->i1 = cimx_i64(tok[1]); o->d1 = cimx_dbl(tok[2]); if (!(o->d1 >= 0.0)) return -1; break;
     case OP_REC_ON: case OP_REC_OFF: NEED(1); o->obj = find_obj(tok[1]); if (o->obj < 0) return -1; break;
     case OP_FILL_TO: NEED(2); o->i1 = cimx_i64(tok[1]); o->i2 = cimx_i64(tok[2]); break;
+    case OP_FTIMER_ADD:
+        NEED(3); o->tgt = parse_proc(tok[1]); if (o->tgt < 0) return -1;
+        o->d1 = cimx_dbl(tok[2]); o->i1 = cimx_i64(tok[3]); if (!(o->d1 >= 0.0)) return -1; break;
+    case OP_FTIMER_CANCEL:
+        NEED(2); o->tgt = parse_proc(tok[1]); if (o->tgt < 0) return -1; o->i1 = cimx_i64(tok[2]); break;
+    case OP_FTIMERS_CLEAR: NEED(1); o->tgt = parse_proc(tok[1]); if (o->tgt < 0) return -1; break;
+    case OP_CUNSUB: case OP_CSUB: {
+        /* cunsub C0 R0 | csub C0 B0.rear : a link declared by an earlier "observe" line */
+        NEED(2); o->obj = find_obj(tok[1]); if (need_kind(o->obj, O_COND)) return -1;
+        int ob, side;
+        if (parse_side(tok[2], &ob, &side) != 0) return -1;
+        o->i1 = -1;
+        for (int l = 0; l < nlinks; l++) if (links[l].cond == o->obj && links[l].obj == ob && links[l].side == side) o->i1 = l;
+        if (o->i1 < 0) return -1;
+        break;
+    }
     case OP_EXIT: case OP_RETURN: NEED(1); o->i1 = cimx_i64(tok[1]); break;
     default: return -1;
     }
@@ -1133,6 +1201,7 @@ static void create_objects(void)
         struct cmb_resourceguard *g = guard_of(links[l].obj, links[l].side);
         if (links[l].via_subscribe) cmb_condition_subscribe(cv, g);
         else cmb_resourceguard_register(g, &cv->guard);
+        links[l].active = true;
     }
     for (int l = 0; l < nlinks; l++) {
         bool have = false;
